@@ -284,11 +284,11 @@ func recvAgainstRef(r *Run, fs framingSpec, ch channel.Channel, ref refDecoder, 
 				r.Fail(cls, "%s: Recv %d returned %s without error although %s", fs.Name, i, preview(data), exp.Why)
 				return
 			}
-			// With the error reported, whatever accompanies it must still be bytes of
-			// that record in their place (what arrived of it, or a leading part):
-			// nothing fabricated, and nothing passed off as a complete record.
-			if len(data) != 0 && !bytes.HasPrefix(exp.Partial, data) {
-				r.Fail("shortened-final-record", "%s: Recv %d returned %s with %v; of the unterminated final record the stream holds %s", fs.Name, i, preview(data), err, preview(exp.Partial))
+			// With the error reported, a framing may hand over what did arrive of the
+			// cut-off record - all of it: a part of what arrived would be a
+			// shortened record - or nothing.
+			if len(data) != 0 && !bytes.Equal(exp.Partial, data) {
+				r.Fail("shortened-final-record", "%s: Recv %d returned %s with %v; of the unterminated final record the stream holds %s, which must not be shortened", fs.Name, i, preview(data), err, preview(exp.Partial))
 				return
 			}
 		case xEnd:
